@@ -57,7 +57,10 @@ std::vector<uint8_t> slurp(const std::string& p) { std::vector<uint8_t> v; read_
 
 void success_case(std::vector<Wav> ws, const refclm::WaveFormat& f, Tape& t, Stats& st) {
 	place(ws);
-	std::vector<std::string> paths; for (auto& w : ws) paths.push_back(t.below(3) == 0 ? "./" + w.path : w.path);
+	std::vector<std::string> paths;
+	for (auto& w : ws) { unsigned sp = unsigned(t.below(6)); std::string q = w.path; size_t ls = q.rfind('/');
+		if (sp == 0 || sp == 1) q = "./" + q; else if (sp == 2 && ls != std::string::npos) q.insert(ls, "/"); else if (sp == 3 && ls != std::string::npos) q.insert(ls, "/."); else if (sp == 4) q = volgen::root() + "/" + q;   // x, ./x, d//x, d/./x, absolute
+		paths.push_back(q); }
 	for (size_t i = paths.size(); i > 1; --i) { size_t j = t.below(i); std::swap(paths[i - 1], paths[j]); }
 	volgen::mkdirs("%o/"); std::string out = "%o/out.clm"; remove(out.c_str());
 	if (t.below(3) == 0) write_file(out, std::vector<uint8_t>(300000, 0x6B));   // an older, longer file is replaced, not overwritten in place
@@ -161,6 +164,7 @@ void run_case(Tape& t, Stats& st) {
 	case 2: { if (ws.empty()) ws.push_back(gen_wav(t, f, 64)); refclm::WaveFormat g = f; switch (t.below(6)) { case 0: g.formatTag ^= 1; break; case 1: g.channels += 1; break; case 2: g.samplesPerSec ^= 0x100; break; case 3: g.avgBytesPerSec += 1; break; case 4: g.blockAlign ^= 2; break; default: g.bitsPerSample += 8; break; }
 		Wav w = gen_wav(t, g, 64); for (auto& x : ws) if (refvol::ieq(x.base, w.base)) w.base = "zz" + std::to_string(t.below(90)); ws.insert(ws.begin() + t.below(ws.size() + 1), w); refusal_case(ws, "format_mismatch", st); break; }
 	case 3: { Wav w = gen_wav(t, f, 64); for (auto& x : ws) if (refvol::ieq(x.base, w.base)) w.base = "qq" + std::to_string(t.below(90));
+		{ auto& ad = w.spec.afterData; for (auto it = ad.begin(); it != ad.end();) { if (!memcmp(it->tag, "fmt ", 4) || !memcmp(it->tag, "data", 4)) it = ad.erase(it); else ++it; } w.bytes = refclm::build_wav(w.spec); }   // the malformed file must not carry a second 'fmt '/'data' chunk that would make it well-formed again
 		const char* why;
 		switch (t.below(5)) { case 0: w.bytes[0] = 'X'; why = "not_riff"; break; case 1: w.bytes[8] = 'w'; why = "not_wave"; break; case 2: w.bytes.resize(t.below(std::min<size_t>(w.bytes.size(), 20))); why = "truncated_header"; break; case 3: w.bytes.push_back(0); w.bytes.push_back(0); why = "riff_size_mismatch"; break; default: { size_t p = 12; for (auto& c : w.spec.beforeFmt) p += 8 + c.body.size(); w.bytes[p] = 'g'; why = "no_fmt_chunk"; break; } }
 		ws.insert(ws.begin() + t.below(ws.size() + 1), w); refusal_case(ws, why, st); break; }
